@@ -244,7 +244,15 @@ def locate_loops(unit, gb, workdir):
             if base in ent.get("params", []):
                 smap.append("%s,%s::%s" % (base, fn, base))
                 continue
-            names = [k for k in symtab if re.fullmatch(re.escape(fn) + r"::(\d+::)*" + re.escape(base), k)]
+            pick = None
+            if "#" in base:  # "y#2": the third same-named local in scope order
+                base, pick = base.split("#")
+                pick = int(pick)
+            names = sorted(k for k in symtab if re.fullmatch(re.escape(fn) + r"::(\d+::)*" + re.escape(base), k))
+            if pick is not None:
+                if pick >= len(names):
+                    raise Tooling("loop symbol %r#%d in %s: only %r" % (base, pick, fn, names))
+                names = [names[pick]]
             if len(names) != 1:
                 raise Tooling("loop symbol %r in %s resolves to %r" % (base, fn, names))
             smap.append("%s,%s" % (base, names[0]))
